@@ -493,6 +493,46 @@ def compare_impl_dump(plain, dres):
     return None
 
 
+def failing_neighbour_cases():
+    """(item, trait that cannot be generated for it, traits that can): a dump of one trait shows the same code whether or not a neighbour in the list fails"""
+    return [("struct X(u8, u8);", "Deref", ["Clone", "PartialEq"]), ("struct X { a: u8, b: u8 }", "DerefMut", ["Debug"]),
+            ("enum X { A, B(u8) }", "Default", ["Clone", "PartialEq"]), ("enum X { #[default] A, #[default] B }", "Default", ["Debug", "Hash"])]
+
+
+def native_failing_neighbours(out):
+    """the traits next to one that cannot be generated: their impls are the same as without it, and their dump shows exactly those impls (native, on the listed inputs)"""
+    n = 0
+    for item, bad, goods in failing_neighbour_cases():
+        for order in ("bad-first", "bad-last", "stacked"):
+            for dumped in goods:
+                def attr(with_bad, with_dump):
+                    ts = ["%s(dump)" % t if (with_dump and t == dumped) else t for t in goods]
+                    if not with_bad:
+                        return ", ".join(ts), item
+                    if order == "stacked":
+                        return ", ".join(ts), "#[derive_ex(%s)] %s" % (bad, item)
+                    return ", ".join([bad] + ts if order == "bad-first" else ts + [bad]), item
+                reqs = [("attr",) + attr(True, False), ("attr",) + attr(True, True), ("attr",) + attr(False, False), ("attr",) + attr(False, True)]
+                with_bad, with_bad_dump, alone, alone_dump = common.expand_many(reqs)
+                tx = lambda r: [("E", common.norm(it.get("msg", ""))) if it.get("kind") == "compile_error" else ("I", common.norm(it.get("text", ""))) for it in r.get("items", [])[1:]]
+                a, b, c, d = tx(with_bad), tx(with_bad_dump), tx(alone), tx(alone_dump)
+                n += 1
+                # what the good traits generate does not depend on the failing neighbour: removing the neighbour's error from the output gives the output without it
+                errs = [x for x in a if x[0] == "E"]
+                problem = None
+                if len(errs) != 1 or [x for x in a if x[0] == "I"] != c:
+                    problem = "next to the failing %s the other traits generate %s, without it %s" % (bad, [x[1][:60] for x in a], [x[1][:60] for x in c])
+                elif [x for x in b if x != errs[0]] != d:
+                    problem = "next to the failing %s the dump of %s gives %s, without it %s" % (bad, dumped, [x[1][:80] for x in b if x != errs[0]], [x[1][:80] for x in d])
+                if problem:
+                    case = {"property": PID, "kind": "same_gen", "mode": "attr", "attr": reqs[1][1], "item": reqs[1][2], "other": {"mode": "attr", "attr": reqs[3][1], "item": reqs[3][2]},
+                            "only_dumps": True, "explain": problem}
+                    path = e3.write_replay(PID, "neighbour%03d" % n, case)
+                    out.violation("dump-next-to-failing-trait|%s|%s|%s" % (bad, dumped, order), path, "#[derive_ex(%s)] %s: %s" % (reqs[1][1], reqs[1][2][:100], problem[:400]))
+                    return n
+    return n
+
+
 def native_differential(out, tier, seed):
     cases = differential_cases(tier, seed)
     reqs, meta = [], []
@@ -554,6 +594,7 @@ def run(tier):
             structural(out, "item_impl|code-with-dump", "build_by_item_impl can return generated code although `dump` is set")
     out.inconclusive[:] = list(dict.fromkeys(out.inconclusive))
     checked, skipped = native_differential(out, tier, seed)
+    checked += e3.safe_part(out, native_failing_neighbours, out) or 0
     log("[C19] native differential: %d input pairs compared, %d skipped" % (checked, skipped))
     # a structural failure alone is no alarm: the code may only have been restructured. If the behaviour it stands for is wrong, the differential above
     # (or the replayed flag models) has a violation with a native replay; otherwise it is reported as inconclusive
